@@ -112,7 +112,7 @@ func cmdWorker(args []string) int {
 			sum.Faults[a] += b
 		}
 		for a, b := range st.Probes {
-			if a == "max-lock-depth" {
+			if a == "max-lock-depth" || strings.HasPrefix(a, "max:") {
 				if b > sum.Probes[a] {
 					sum.Probes[a] = b
 				}
@@ -401,7 +401,7 @@ func cmdRun(args []string) int {
 						a.sum.Faults[k] += v
 					}
 					for k, v := range s.Probes {
-						if k == "max-lock-depth" {
+						if k == "max-lock-depth" || strings.HasPrefix(k, "max:") {
 							if v > a.sum.Probes[k] {
 								a.sum.Probes[k] = v
 							}
